@@ -117,8 +117,14 @@ class Oracle:
             ctx.violate(CLAUSE['outcome'], self.witness(ops, raising), out)
         cur = items_of(st)
         new = [k for k in cur if k not in st.items]
+        # the property promises valid -> valid: while the order is already broken by a known finding (and by nothing
+        # else), a further inversion against one of the misplaced rules is a consequence of that finding
+        order_taint = sorted(set(v for k, v in st.explained.items() if k[0] == 'order'))
+        order_clean = all(k in st.explained for k in st.items if k[0] in ('order', 'charset'))
         for k in new:
             f = self.explain(k, st, op, out, pre)
+            if f is None and k[0] == 'order' and order_taint and order_clean:
+                f = order_taint[0]
             if f:
                 st.explained[k] = f
             ctx.violate(CLAUSE[k[0]], self.witness(ops, raising), cur[k], known=f)
@@ -148,8 +154,11 @@ class Oracle:
         if clause == 'dpss':
             return F_DEPTH2 if k[2] >= 2 else None
         if clause == 'link':
-            if (k[2] == 'parentStyleSheet' and t == 'ins' and op[1].kind == 'namespace' and not op[3]
-                    and out == 'ERR NoModificationAllowedErr' and k[1] == id(st.last_arg)):
+            # region: insertRule / add / namespaces[p]=u of a @namespace rule raises NoModificationAllowedErr (the
+            # clean-up's deleteRule refused to drop a namespace in use); the flagged object is the new rule
+            is_ns = (t in ('ins', 'add') and op[1].kind == 'namespace') or t == 'nsset'
+            if (k[2] == 'parentStyleSheet' and is_ns and out == 'ERR NoModificationAllowedErr'
+                    and k[1] not in pre['live']):
                 return F_CLEAN
             return None
         if clause == 'gone':
